@@ -102,6 +102,8 @@ def one_sinusoid(rec, seedt, tier, fixed=None):
         offs = [fixed["b"] - fixed["b0"]]
     fs = 1.0
     N = L if K == 1 else int(L * (1 + 0.5 * (K - 1)))
+    if fixed is None and K == 1 and rng.random() < 0.3:
+        N = L + max(1, int(L * float(rng.uniform(0.005, 0.1))))   # a record slightly longer than its one segment
     t = np.arange(N)
     x = np.sin(2 * math.pi * b0 / L * t + phase)
     desc = {"kind": "sinusoid" if fixed is None else "corpus", "seed": list(seedt) if seedt else None,
